@@ -1,9 +1,161 @@
 (* Properties/C01.v — Merklized entries are exactly the document's facts.
    ONLY restatements closed by `exact`, each followed by Print Assumptions.
-   Model: RDF/Model.v; spec: RDF/Spec.v; proofs: RDF/Th*.v, RDF/Theory.v. *)
-From Coq Require Import ZArith List String.
-From GSP Require Import Base.Prelude Value.Time Value.Model RDF.Model RDF.Spec RDF.ThTotal.
+   Model: RDF/Model.v (EntriesFromRDFWithHasher), Merklizer/Model.v (merklize_ds);
+   spec: RDF/Spec.v (parent, anc_path, child_index, value_index, fact, value_quads);
+   proofs: RDF/Th*.v, RDF/Theory.v.  All statements hold for EVERY dataset with
+   unique graph names (a Go map), of any size, in any graph order, for every prime
+   (hasher configuration) and every float oracle. *)
+From Coq Require Import ZArith List String Bool.
+From GSP Require Import Base.Prelude Value.Time Value.Model SMT.Model RDF.Model RDF.Spec
+  RDF.ThTotal RDF.ThPath RDF.ThIndex RDF.Theory RDF.ThLeaves Merklizer.Model.
 Import ListNotations.
+Open Scope bool_scope.
+
+(* the entries are, one for one and in the deterministic order (graph names sorted,
+   then slice order), the literal- and IRI-valued quads of the dataset, each under
+   its unique ancestor path + own predicate + value index, holding the converted
+   value and the datatype: nothing dropped, duplicated, merged or invented *)
+Theorem C01_entries_exact :
+  forall F prime ds es,
+  is_map ds -> entries_from_rdf F prime ds = Ok es ->
+  Forall2 (fun e iq =>
+             exists pi p,
+               anc_path ds (fst iq) pi /\ qp (snd iq) = NIri p /\
+               e_key e = pi ++ [PStr p] ++ opt_part (value_index ds (fst iq)) /\
+               match qo (snd iq) with
+               | NLit lex d => convert F d lex prime = Ok (e_val e) /\ e_dt e = d
+               | NIri s => e_val e = XStr s /\ e_dt e = ""%string
+               | NBlank _ => False
+               end)
+          es (filter (fun iq => is_value (snd iq)) (positions ds)).
+Proof. exact entries_exact_fact. Qed.
+Print Assumptions C01_entries_exact.
+
+Theorem C01_entries_count :
+  forall F prime ds es,
+  is_map ds -> entries_from_rdf F prime ds = Ok es ->
+  List.length es = List.length (value_quads ds).
+Proof. exact entries_count. Qed.
+Print Assumptions C01_entries_count.
+
+(* the entry of a quad is unique: its node has exactly one path *)
+Theorem C01_path_unique :
+  forall ds i p1, anc_path ds i p1 -> forall p2, anc_path ds i p2 -> p1 = p2.
+Proof. exact anc_path_unique. Qed.
+Print Assumptions C01_path_unique.
+
+Theorem C01_entry_determined :
+  forall F prime ds e e' iq, fact F prime ds e iq -> fact F prime ds e' iq -> e = e'.
+Proof. exact fact_functional. Qed.
+Print Assumptions C01_entry_determined.
+
+(* value indices: the integer that ends an entry's key is the value index of its quad ... *)
+Theorem C01_indices_entries :
+  forall F prime ds es,
+  is_map ds -> entries_from_rdf F prime ds = Ok es ->
+  Forall2 (fun e iq => last_index (e_key e) = option_map Z.of_nat (value_index ds (fst iq)))
+          es (value_quads ds).
+Proof. exact entries_value_index. Qed.
+Print Assumptions C01_indices_entries.
+
+(* ... and over the value quads of one (subject, predicate, graph) group, in order,
+   these indices are absent when the group has one quad and exactly 0..m-1 otherwise *)
+Theorem C01_indices_value :
+  forall ds g l k,
+  lookup_graph ds g = Some l ->
+  let ms := filter (fun iq => same_key g k (snd iq) && is_value (snd iq)) (graph_positions g l) in
+  map (fun iq => value_index ds (fst iq)) ms =
+  if Nat.leb (group_size g l k) 1 then map (fun _ => None) ms
+  else map Some (seq 0 (List.length ms)).
+Proof. exact value_indices_exact. Qed.
+Print Assumptions C01_indices_value.
+
+(* child indices: the distinct child nodes of a parent key carry no index when there
+   is one of them and exactly 0..c-1 (first appearance first) otherwise *)
+Theorem C01_indices_child :
+  forall ds k,
+  let cs := child_nodes ds k in
+  NoDup cs /\
+  (List.length cs = 1%nat -> forall c, child_index ds k c = None) /\
+  (List.length cs <> 1%nat -> map (child_index ds k) cs = map Some (seq 0 (List.length cs))) /\
+  (forall c, ~ In c cs -> child_index ds k c = None).
+Proof. exact child_indices_exact. Qed.
+Print Assumptions C01_indices_child.
+
+(* and the node of every quad that has a parent is one of those numbered children *)
+Theorem C01_indices_child_member :
+  forall ds i qi si j kj,
+  quad_at ds i = Some qi -> get_ref (qs qi) = Some si ->
+  parent ds i = Some j -> key_at ds j = Some kj ->
+  In si (child_nodes ds kj).
+Proof. exact child_member. Qed.
+Print Assumptions C01_indices_child_member.
+
+(* a node referenced from two places inside its graph is rejected with an error *)
+Theorem C01_shared_rejected :
+  forall F prime ds i q s j1 q1 j2 q2,
+  is_map ds ->
+  quad_at ds i = Some q -> get_ref (qs q) = Some s ->
+  quad_at ds j1 = Some q1 -> quad_at ds j2 = Some q2 ->
+  fst j1 = fst i -> fst j2 = fst i -> j1 <> i -> j2 <> i -> j1 <> j2 ->
+  get_ref (qo q1) = Some s -> get_ref (qo q2) = Some s ->
+  exists t, entries_from_rdf F prime ds = Err t.
+Proof. exact shared_two_referrers_rejected. Qed.
+Print Assumptions C01_shared_rejected.
+
+(* two references to the blank node of a named graph: rejected *)
+Theorem C01_shared_graph_rejected :
+  forall F prime ds i q s g j1 q1 j2 q2,
+  is_map ds ->
+  quad_at ds i = Some q -> get_ref (qs q) = Some s -> qg q = Some (NBlank g) ->
+  referrers ds (fst i) i s = [] ->
+  quad_at ds j1 = Some q1 -> quad_at ds j2 = Some q2 ->
+  j1 <> i -> j2 <> i -> j1 <> j2 ->
+  get_ref (qo q1) = Some (RBlank g) -> get_ref (qo q2) = Some (RBlank g) ->
+  exists t, entries_from_rdf F prime ds = Err t.
+Proof. exact shared_graph_node_rejected. Qed.
+Print Assumptions C01_shared_graph_rejected.
+
+(* in an accepted dataset every quad's node has at most one referrer *)
+Theorem C01_accepted_unshared :
+  forall F prime ds es i q,
+  is_map ds -> entries_from_rdf F prime ds = Ok es -> quad_at ds i = Some q ->
+  forall q' s, quad_at ds i = Some q' -> get_ref (qs q') = Some s ->
+    (List.length (referrers ds (fst i) i s) <= 1)%nat /\
+    (referrers ds (fst i) i s = [] -> forall g, qg q' = Some (NBlank g) ->
+     (List.length (all_referrers ds i (RBlank g)) <= 1)%nat).
+Proof. exact accepted_unshared. Qed.
+Print Assumptions C01_accepted_unshared.
+
+(* a blank-node object whose key has no registered child node is never merklized *)
+Theorem C01_blank_leaf_rejected :
+  forall F prime ds i q b k,
+  is_map ds -> quad_at ds i = Some q -> qo q = NBlank b ->
+  key_at ds i = Some k -> child_nodes ds k = [] ->
+  forall es, entries_from_rdf F prime ds <> Ok es.
+Proof. exact blank_leaf_rejected. Qed.
+Print Assumptions C01_blank_leaf_rejected.
+
+(* a statement below a reference cycle has no path: never merklized *)
+Theorem C01_cycle_rejected :
+  forall F prime ds i q j,
+  is_map ds -> In (i, q) (value_quads ds) -> reaches ds i j ->
+  (exists j', parent ds j = Some j' /\ reaches ds j' j) ->
+  forall es, entries_from_rdf F prime ds <> Ok es.
+Proof. exact cycle_rejected. Qed.
+Print Assumptions C01_cycle_rejected.
+
+(* FINDING (refuted statement): a node that refers to itself is NOT always rejected.
+   The model, faithful to findParentInsideGraph's `quad == q` skip, accepts
+   {"@id":"urn:c0","name":"n0","next":{"@id":"urn:c0"}} and files `name` under
+   [next; name].  C01_cycle_rejected above covers cycles of the quad-level parent
+   relation only (length >= 2 in terms of nodes). *)
+Theorem C01_self_reference_refuted :
+  ~ (forall F prime ds, is_map ds ->
+     (exists i q s, quad_at ds i = Some q /\ get_ref (qs q) = Some s /\ get_ref (qo q) = Some s) ->
+     forall es, entries_from_rdf F prime ds <> Ok es).
+Proof. exact self_reference_rejected_refuted. Qed.
+Print Assumptions C01_self_reference_refuted.
 
 (* the parent walk never exhausts its fuel: any fuel above the number of quads
    suffices, whatever the relationship maps contain (cycles are cut by the
@@ -23,3 +175,19 @@ Theorem C01_terminates :
   forall w, entries_from_rdf F prime ds = Panic w -> exists dt v, convert F dt v prime = Panic w.
 Proof. exact entries_total. Qed.
 Print Assumptions C01_terminates.
+
+(* MerklizeJSONLD from the normalised dataset on: one leaf per entry, entries =
+   value quads, stored entries = the entries, keys pairwise distinct *)
+Theorem C01_leaves :
+  forall T Hd F cfg ds m,
+  is_map ds -> merklize_ds T Hd F cfg None ds = Ok m ->
+  let h := hasher_or Hd cfg in
+  exists es,
+    entries_from_rdf F (h_prime h) ds = Ok es /\
+    Forall2 (fact F (h_prime h) ds) es (value_quads ds) /\
+    map snd (mz_entries m) = map (wrap_entry h (Some h)) es /\
+    NoDup (map fst (mz_entries m)) /\
+    List.length (leaves (mz_tree m)) = List.length es /\
+    NoDup (keys (mz_tree m)).
+Proof. exact leaves_exact. Qed.
+Print Assumptions C01_leaves.
